@@ -1,9 +1,79 @@
 import UvModel.DriverUtil
-/-! line-protocol driver modes for C18 (stub: no modes yet) -/
+import UvModel.Inet
+/-! line-protocol driver for the address half of C18; other side: harness/c18_inet.c.
+    Byte strings are lower-case hex, `-` = empty.  The memory image of a string argument is cut
+    at its first NUL byte (`cstr`) before it is handed to the model, as C does.
+    Destination buffers are `size` bytes pre-filled with 0xaa on both sides. -/
 namespace Drivers.C18
-open UvModel.DriverUtil
+open UvModel.DriverUtil UvModel.Inet
 
-/-- (mode name, action).  `uvdriver <mode>` runs the action (normally `runLines init step`). -/
-def modes : List (String × IO Unit) := []
+def hexNib (c : Char) : Option Nat :=
+  if '0' ≤ c ∧ c ≤ '9' then some (c.toNat - 48)
+  else if 'a' ≤ c ∧ c ≤ 'f' then some (c.toNat - 87)
+  else none
+
+def unhexL : List Char → Option (List Nat)
+  | [] => some []
+  | [_] => none
+  | a :: b :: rest =>
+    match hexNib a, hexNib b, unhexL rest with
+    | some x, some y, some r => some ((x * 16 + y) :: r)
+    | _, _, _ => none
+
+def unhex (s : String) : Option (List Nat) := if s = "-" then some [] else unhexL s.toList
+
+def nibHex (n : Nat) : Char := Char.ofNat (if n < 10 then 48 + n else 87 + n)
+
+def hex (bs : List Nat) : String :=
+  if bs.isEmpty then "-" else String.ofList (bs.flatMap fun b => [nibHex (b / 16 % 16), nibHex (b % 16)])
+
+def res (r : Int × List Nat) : String := s!"{r.1}:{hex r.2}"
+/-- pton results print the bytes only on success (the harness does the same) -/
+def resP (r : Int × List Nat) : String := if r.1 = 0 then res r else s!"{r.1}:-"
+
+def fill (n : Nat) : List Nat := List.replicate n 0xaa
+
+def step (_ : Unit) : List String → Unit × List String
+  | [] => ((), [])
+  | ["pton4", h] =>
+    match unhex h with
+    | some m =>
+      let s := cstr m
+      ((), [s!"pton4 {h} uv={resP (uvInetPton AF_INET s)} ip4={resP (uvIp4Addr s)}"])
+    | none => ((), ["bad-op"])
+  | ["pton6", h] =>
+    match unhex h with
+    | some m =>
+      let s := cstr m
+      ((), [s!"pton6 {h} uv={resP (uvInetPton AF_INET6 s)} ip6={resP (uvIp6Addr s)}"])
+    | none => ((), ["bad-op"])
+  | ["ntop4", a, sz] =>
+    match unhex a, sz.toNat? with
+    | some addr, some n =>
+      if addr.length ≠ 4 then ((), ["bad-op"]) else
+      ((), [s!"ntop4 {a} {n} uv={res (uvInetNtop AF_INET addr (fill n) n)} name={res (uvIp4Name addr (fill n) n)} ipname={res (uvIpName AF_INET addr (fill n) n)}"])
+    | _, _ => ((), ["bad-op"])
+  | ["ntop6", a, sz] =>
+    match unhex a, sz.toNat? with
+    | some addr, some n =>
+      if addr.length ≠ 16 then ((), ["bad-op"]) else
+      ((), [s!"ntop6 {a} {n} uv={res (uvInetNtop AF_INET6 addr (fill n) n)} name={res (uvIp6Name addr (fill n) n)} ipname={res (uvIpName AF_INET6 addr (fill n) n)}"])
+    | _, _ => ((), ["bad-op"])
+  | ["strscpy", h, sz] =>
+    match unhex h, sz.toNat? with
+    | some m, some n =>
+      let r := strscpy (fill n) (cstr m) n
+      ((), [s!"strscpy {h} {n} ret={r.1} dst={hex r.2}"])
+    | _, _ => ((), ["bad-op"])
+  | ["af", a] =>
+    match a.toNat? with
+    | some af =>
+      ((), [s!"af {af} ntop={(uvInetNtop af [1, 2, 3, 4] (fill 64) 64).1} pton={(uvInetPton af [49]).1} ipname={(uvIpName af [1, 2, 3, 4] (fill 64) 64).1}"])
+    | none => ((), ["bad-op"])
+  | _ => ((), ["bad-op"])
+
+/-- (mode name, action).  `uvdriver <mode>` runs the action. -/
+def modes : List (String × IO Unit) := [("c18inet", runLines () step)]
+-- NOTE (main): `Drivers.C18Text.modes` (UTF-8/IDNA/WTF-8 half) is appended in Main.lean / may be appended here later.
 
 end Drivers.C18
